@@ -389,13 +389,18 @@ class Engine:
                 exit_ = self._map(h, lambda cfg: c.assume(s.a, False, cfg))
             else:
                 bin_ = h
-                exit_ = h if s.d == "foreach" else None   # for(;;) leaves only by break
+                exit_ = h if s.d == "foreach" and not nonempty else None   # for(;;) leaves only by break
             r = self.ex(s.b, bin_)
             back = self.join(r.normal, r.cont)
             for stp in s.c:
                 back = self.ex(stp, back).normal if back is not None else None
             return back, self.join(exit_, r.brk), r.leave
 
+        # for v in [a, b, c]: the body runs at least once -- the loop is left from the end of a pass (or by break)
+        import ast as _ast
+        it_ = s.extra[1] if s.d == "foreach" and isinstance(getattr(s, "extra", None), tuple) else None
+        nonempty = isinstance(it_, (_ast.List, _ast.Tuple)) and len(it_.elts) > 0 and \
+            not any(isinstance(e, _ast.Starred) for e in it_.elts)
         head = entry
         self.silent += 1
         try:
@@ -410,4 +415,6 @@ class Engine:
         finally:
             self.silent -= 1
         back, after, lv = once(head)
+        if nonempty:
+            after = self.join(after, back)
         return _Out(after, None, None, lv)
